@@ -14,7 +14,8 @@ LEVEL_TEXT = ("TLC explores MBuffObj.tla exhaustively in a small scope (all hist
               "plus a sampled 2-step transition cover and random walks; recorded executions with buffers of "
               "0..20000 bytes built from regular files, files at a non-zero offset, pipes and pipes fed in pieces, a size sweep around "
               "8..8192 bytes with aliased arguments, every byte value in every position class, and read-fault schedules are validated "
-              "by TLC against the same actions.")
+              "by TLC against the same actions; objects of 2 GiB + 18 (thorough: also 4 GiB + 18) bytes enter the same validation in "
+              "gap-compressed form (GapLaw).")
 LEVEL_NOTE = ("Bounded scope for the exhaustive part; beyond it only the recorded executions. Trusted: TLC, the harness projection "
               "(harness/mbuff_replay.c), ASan (a read between len and size of the same heap block is invisible to it; such reads show "
               "only as wrong answers). E (either accepted): the return value of (n)cmp_with_ptr with a count beyond the buffer's length and an "
@@ -435,6 +436,81 @@ def extreme_execs(rnd, quick):
     return execs
 
 
+# ---- round 5: real sizes - objects of 2 GiB + k / 4 GiB + k bytes in gap-compressed form ---------------------------------------
+GM = 8            # harness/mbuff_replay.c: the model's gap
+
+
+def huge_exec(gap, quick=False):
+    """head ++ <2^31 or 2^32 zero bytes> ++ tail, built by spif_mbuff_new_from_buff() from a lazily zeroed mapping; every operation
+    whose result depends on a length DIFFERENCE or on a position beyond 2^31.  All positions / lengths below are MODEL values
+    (gap = GM zeros); the harness translates (MBuffObj.tla: Gap compression / GapLaw)."""
+    H = [65, 200, 66, 67, 1, 68, 69, 70, 71, 233, 72, 73, 74, 75, 76, 77]      # 16 non-zero bytes, 200 / 1 / 233 only here
+    T = [7, 8]                                                                 # 7 and 8 only behind the gap
+    A = H + [0] * GM + T
+    lm, h = len(A), len(H)
+    ops = [("huge_new", [H, gap, T])]
+
+    def q(op, *args):
+        ops.append((op, list(args)))
+    # searches whose answers lie beyond 2^31 (or are the length = not found)
+    # (each of these walks 2 / 4 GiB byte by byte under ASan: the quick tier takes one of each kind)
+    for c in ((7, 99) if quick else (65, 200, 7, 8, 0, 99)):
+        q("index", c)
+    for c in ((65, 0) if quick else (65, 200, 7, 8, 0, 99)):
+        q("rindex", c)
+    for nd in ((T, [7, 9]) if quick else (T, [0, 7], [0, 0, 7, 8], H[-2:] + [0], [7, 9], [8], H)):      # memmem over 2 GiB: ~2 s each
+        q("find_from_ptr", nd)
+    q("cmp", "self")
+    if not quick:
+        q("ncmp", "self", HUGE); q("ncmp", "self", lm); q("find", "self")
+    q("cmp_with_ptr", H); q("cmp_with_ptr", H + [0, 0]); q("cmp_with_ptr", H[:-1] + [78]); q("ncmp_with_ptr", H + [0, 1], h + 1)
+    # proper prefixes: the real lengths differ by G-1, G, G+1 (B = head + 3 / 2 / 1 zeros), G+2 (head), G+3, and a non-prefix
+    for B in (H + [0, 0, 0], H + [0, 0], H + [0], H, H[:-1], H[:-1] + [78], H + [0, 5]):
+        q("b_new_from_ptr", B)
+        q("cmp", "b"); q("b_cmp_a")
+        if not quick or B == A[:len(B)]:
+            q("find", "b")
+        for n in (HUGE, lm, lm - 1, len(B), len(B) + 1, h + GM):
+            q("ncmp", "b", n)
+        q("b_del")
+    # pieces at positions beyond 2^31
+    for i, c in ((h + GM, 2), (h + GM + 1, 1), (h + GM, HUGE), (-1, 1), (-2, 0), (-2, HUGE), (lm - 1, 5), (lm, 1), (lm + 1, 1), (-lm - 1, 1),
+                 (h - 2, 4), (h + GM - 1, 3), (h + GM - 1, -1), (0, 3), (-lm, 2)):
+        q("subbuff_to_ptr", i, c)
+        q("subbuff", i, c)
+        k = i + lm if i < 0 else i
+        cc = lm - k + c if c <= 0 else c
+        if 0 <= k < lm and cc >= 0:
+            q("b_cmp_a"); q("b_del")
+    # in place, over the whole length
+    q("reverse")
+    for c in ((65,) if quick else (7, 65, 0)):
+        q("index", c)
+    for c in ((7,) if quick else (7, 65, 0)):
+        q("rindex", c)
+    q("find_from_ptr", [0, 77])
+    if not quick:
+        q("find_from_ptr", [8, 7, 0])
+    q("b_new_from_ptr", [8, 7, 0]); q("cmp", "b"); q("b_cmp_a"); q("ncmp", "b", HUGE); q("b_del")
+    q("subbuff_to_ptr", -2, HUGE); q("subbuff_to_ptr", 2 + GM, 3)
+    q("del")
+    return ops
+
+
+def huge_validation(ctx, exe):
+    """quick: one 2 GiB + 18 object through the direct functions; thorough: 2 GiB and 4 GiB, direct and class table."""
+    plan = [("direct", "2g", True)] if ctx.tier == "quick" else [("direct", "2g", False), ("direct", "4g", False), ("table", "4g", True),
+                                                                    ("table", "2g", True)]
+    out = {}
+    for var, gap, short in plan:
+        rr = record_and_validate(ctx, exe, [huge_exec(gap, short)], var, tag="huge-%s-%s" % (gap, var[0]), env={"VH_WATCHDOG": "600"}, jobs=1)
+        out["%s/%s" % (gap, var)] = {"real_length": (1 << (31 if gap == "2g" else 32)) + 18, "events_accepted": rr["accepted_events"],
+                                     "events": rr["events"], "recorded": rr["recorded"]}
+        ctx.add("trace_events_validated", rr["accepted_events"])
+        ctx.add("traces_validated_against_impl", rr["recorded"])
+    ctx.cov["real_sizes"] = out
+
+
 # ---- round 4: copies carry hidden state - dup, then the FIRST mutation of the copy (and of the original) -----------------
 
 def copy_execs(rnd, quick):
@@ -704,14 +780,14 @@ def validate_events(ctx, events, tag):
     raise Broken("trace validation run failed without a verdict:\n%s\n...\n%s" % ((res.violation or "")[:1500], "\n".join(res.tail[-6:])))
 
 
-def record_and_validate(ctx, exe, execs, variant="direct", tag="mbuff", env=None):
+def record_and_validate(ctx, exe, execs, variant="direct", tag="mbuff", env=None, jobs=4):
     """Runs the programs in record mode on the implementation, turns the records into events and lets TLC validate
     them against MBuffObjTrace.  Returns a dict of counters; failures are reported through ctx.report."""
     from vlib.replay import run_scripts
     texts = [script_of(k + 1, ops) for k, ops in enumerate(execs)]
     # record mode has no expected tokens to size the harness's token builders from: VH_TOKEN_MAX sizes them outside the
     # measured heap window, so executions with 20000-byte values get the heap-balance postlude too
-    fails, recs, ns, nt = run_scripts(exe, [variant], texts, ctx.rundir, jobs=4, env=dict({"VH_TOKEN_MAX": "400000"}, **(env or {})), tag="rec-" + tag)
+    fails, recs, ns, nt = run_scripts(exe, [variant], texts, ctx.rundir, jobs=jobs, env=dict({"VH_TOKEN_MAX": "400000"}, **(env or {})), tag="rec-" + tag)
     bad = {}
     for f in fails:
         if f.kind == "inv" and f.got.startswith("harness:op_") and f.got.endswith("_on_absent_slot"):
@@ -744,13 +820,16 @@ def record_and_validate(ctx, exe, execs, variant="direct", tag="mbuff", env=None
     events, index, pres = [], [], []
     maxlen = 0
     for sid in sorted(by):
-        if sid in bad:
-            continue
+        # an execution that failed at step k (crash, invariant, heap) is reported above; the calls recorded BEFORE k are still
+        # validated, so that one defect does not hide another in the same execution
+        upto = bad[sid].step if sid in bad and bad[sid].kind != "heap" else None
         events.append({"op": "reset", "args": [], "ret": True, "ca": True, "cb": True, "pa": INIT["a"], "pb": INIT["b"]})
         index.append((sid, -1))
         pres.append(INIT)
         prev = INIT
         for step, ret, state in sorted(by[sid]):
+            if upto is not None and step >= upto:
+                break
             op, args = execs[sid - 1][step]
             post = untok(state)
             rv = untok(ret)
@@ -758,6 +837,10 @@ def record_and_validate(ctx, exe, execs, variant="direct", tag="mbuff", env=None
                 # the harness reports what the ENVIRONMENT did (errors returned, bytes delivered): event arguments
                 args = list(args) + [rv["hard"], rv["eintr"], rv["d"]]
                 rv = rv["ok"]
+            if op == "huge_new":
+                # in model scale the call was new_from_buff(head ++ GM zeros ++ tail, len, len); the real length is kept as raw
+                tm = list(args[0]) + [0] * GM + list(args[2])
+                op, args = "new_from_buff", [tm, len(tm)]
             cargs, raw = clip_args(op, args)
             ev = {"op": op, "args": cargs, "ret": rv, "ca": post["a"] != prev["a"], "cb": post["b"] != prev["b"]}
             if raw:
@@ -886,6 +969,7 @@ def run(ctx):
         del g
     ctx.cov["edges_per_op"] = dict(sorted(per_op.items()))
     trace_validation(ctx, exe)
+    huge_validation(ctx, exe)
     ctx.cov["exhaustive"] = True
     ctx.cov["rule"] = ("every transition TLC generates for MBuffObj in the bounded scope is executed once (through the class table) as the "
                        "last step of a script whose prefix consists of already verified transitions; bytes, length, return value and "
